@@ -77,6 +77,14 @@ pub fn worker(args: &[String]) -> i32 {
     let n: u64 = args[4].parse().unwrap();
     let out_path = &args[5];
     let want_log = args.get(6).map(|s| s == "--log").unwrap_or(false);
+    // Only one simulation thread runs at a time, so the whole process is pinned to one core: baton
+    // passes then stay on-core instead of waking a thread on another (busy) core.
+    unsafe {
+        let ncpu = libc::sysconf(libc::_SC_NPROCESSORS_ONLN).max(1) as u64;
+        let mut set: libc::cpu_set_t = std::mem::zeroed();
+        libc::CPU_SET((k % ncpu) as usize, &mut set);
+        let _ = libc::sched_setaffinity(0, std::mem::size_of::<libc::cpu_set_t>(), &set);
+    }
     let mut out = WorkerOut::default();
     let mut sigs: BTreeSet<u64> = BTreeSet::new();
     let mut cases_seen: BTreeSet<u64> = BTreeSet::new();
